@@ -1890,36 +1890,30 @@ var _ context.Context = (*primaryCtx)(nil)
 
 // primaryCtx represents a context that is marked done when the node loses its primary status.
 type primaryCtx struct {
-	parent    context.Context
+	// Derived from the parent so that cancelation of the parent propagates and
+	// so that context.Cause(), which looks the cause up through Value(),
+	// reports why this context ended instead of the parent's (nil) cause.
+	context.Context
 	primaryCh chan struct{}
-	done      chan struct{}
 }
 
 func newPrimaryCtx(parent context.Context, primaryCh chan struct{}) *primaryCtx {
+	cctx, cancel := context.WithCancelCause(parent)
 	ctx := &primaryCtx{
-		parent:    parent,
+		Context:   cctx,
 		primaryCh: primaryCh,
-		done:      make(chan struct{}),
 	}
 
 	go func() {
 		select {
 		case <-ctx.primaryCh:
-			close(ctx.done)
-		case <-ctx.parent.Done():
-			close(ctx.done)
+			cancel(ErrLeaseExpired)
+		case <-cctx.Done():
+			cancel(nil)
 		}
 	}()
 
 	return ctx
-}
-
-func (ctx *primaryCtx) Deadline() (deadline time.Time, ok bool) {
-	return ctx.parent.Deadline()
-}
-
-func (ctx *primaryCtx) Done() <-chan struct{} {
-	return ctx.done
 }
 
 func (ctx *primaryCtx) Err() error {
@@ -1927,12 +1921,8 @@ func (ctx *primaryCtx) Err() error {
 	case <-ctx.primaryCh:
 		return ErrLeaseExpired
 	default:
-		return ctx.parent.Err()
+		return ctx.Context.Err()
 	}
-}
-
-func (ctx *primaryCtx) Value(key any) any {
-	return ctx.parent.Value(key)
 }
 
 // removeFilesExcept removes all files from a directory except a given filename.
